@@ -13,7 +13,7 @@ pub const PROPS: &[&str] = &["C08", "C01", "C03"];
 /// What the property protects: the inputs the session delivers (final timeline and states of every
 /// frame confirmed in both runs), its connection state (per-address event sequence, disconnect
 /// flags, Running) - not the exact timing of retransmissions or rollbacks.
-fn fingerprint(o: &Outcome, upto: &[i32]) -> Vec<String> {
+fn fingerprint(o: &Outcome, upto: &[i32], keep_times: bool) -> Vec<String> {
     let mut v = Vec::new();
     for (i, p) in o.peers.iter().enumerate() {
         let n = (upto[i] + 1).max(0) as usize;
@@ -27,10 +27,14 @@ fn fingerprint(o: &Outcome, upto: &[i32]) -> Vec<String> {
         }
         v.push(format!("peer{i} inputs_and_states_up_to_frame_{}={:x} disconnected={:?} running={}", upto[i], h, p.cs.iter().map(|c| c.0).collect::<Vec<_>>(), p.running));
         // per remote address (the order of events of different addresses raised by one poll is unspecified)
-        let mut by: std::collections::BTreeMap<Option<u8>, Vec<&Ev>> = Default::default();
+        // connection-state events keep their instants: a foreign packet must not move a timeout
+        let mut by: std::collections::BTreeMap<Option<u8>, Vec<(u64, &Ev)>> = Default::default();
         for e in &p.events {
             if !matches!(e.1, Ev::Wait { .. }) {
-                by.entry(e.1.addr()).or_default().push(&e.1);
+                // (only when every forged packet of the case is foreign: a malformed packet carrying the
+                // peer's own magic may legitimately shift retransmission timing, and with it these instants)
+                let t = if keep_times && matches!(e.1, Ev::Interrupted { .. } | Ev::Resumed { .. } | Ev::Disconnected { .. }) { e.0 } else { 0 };
+                by.entry(e.1.addr()).or_default().push((t, &e.1));
             }
         }
         for (a, evs) in by {
@@ -43,7 +47,7 @@ fn fingerprint(o: &Outcome, upto: &[i32]) -> Vec<String> {
     v
 }
 
-/// does this payload decode (reference decoder) into >= 1 frames that all have the size a real
+/// does this payload decode (reference decoder) into frames (possibly none) that all have the size a real
 /// packet for `players` players would have? Then it is a *valid* encoding, not a malformed one.
 pub fn payload_is_valid(bytes: &[u8], frame_size: usize) -> bool {
     let Some(raw) = ref_rle_decode(bytes, 1 << 22) else { return false };
@@ -61,7 +65,9 @@ pub fn payload_is_valid(bytes: &[u8], frame_size: usize) -> bool {
         pos += len;
         n += 1;
     }
-    n > 0
+    // zero frames: a well-formed (if never produced) packet that only carries an ack
+    let _ = n;
+    true
 }
 
 fn frame_size(sc: &Scenario, from_addr: u8, to_addr: u8) -> usize {
@@ -147,11 +153,16 @@ pub fn eval(sc0: &Scenario) -> CaseResult {
                 u
             })
             .collect();
-        let (a, b) = (fingerprint(&out, &upto), fingerprint(&t, &upto));
+        let keep_times = !sc.ops.iter().any(|o| matches!(o, Op::Forge { kind, .. } if *kind <= 3));
+        if keep_times {
+            r.classes.push("foreign_only(event_instants_compared)");
+        }
+        let (a, b) = (fingerprint(&out, &upto, keep_times), fingerprint(&t, &upto, keep_times));
         // spectators replay what their host confirmed: compare the common prefix
         let mut spec_diff = None;
         for (i, (x, y)) in out.specs.iter().zip(t.specs.iter()).enumerate() {
-            let n = x.timeline.len().min(y.timeline.len());
+            // only up to what the host confirmed in both runs / the earlier cut-off (same bound as for the host)
+            let n = x.timeline.len().min(y.timeline.len()).min((upto[x.host] + 1).max(0) as usize);
             if x.timeline[..n] != y.timeline[..n] {
                 spec_diff = Some(i);
             }
@@ -185,6 +196,8 @@ pub fn eval(sc0: &Scenario) -> CaseResult {
                 5 => "foreign_magic_copy",
                 6 => "foreign_magic_stale_session",
                 7 => "foreign_magic_any_class",
+                10 => "foreign_sync_request",
+                11 => "foreign_sync_reply",
                 _ => "other",
             });
             if *tick < 25 {
@@ -228,7 +241,7 @@ pub fn gen(tier: Tier, lossy: bool) -> BoxedStrategy<Scenario> {
         p.lat_min = vec![0, 10, 40];
         p.slow = vec![0, 10];
     }
-    let forge = (any::<u16>(), any::<u16>(), 0u8..8, -3i32..8, -3i32..40, garbage(), 0u8..4);
+    let forge = (any::<u16>(), any::<u16>(), 0u8..10, -3i32..8, -3i32..40, garbage(), 0u8..4);
     (scenario(&p), proptest::collection::vec(forge, 1..24), any::<u16>(), any::<u8>())
         .prop_map(|(mut sc, forges, kt, kill)| {
             let links = all_links(&sc);
@@ -241,10 +254,16 @@ pub fn gen(tier: Tier, lossy: bool) -> BoxedStrategy<Scenario> {
             } else {
                 None
             };
+            let foreign_only = kill % 2 == 1;
             for (l, t, kind, a, b, bytes, phase) in forges {
+                // kinds 8 and 9 of this generator are the foreign handshake packets (world kinds 10, 11)
+                let kind = if kind >= 8 { kind + 2 } else { kind };
+                // half of the cases consist of foreign packets only (then event instants are compared too)
+                let kind = if foreign_only && kind <= 3 { [4u8, 5, 7, 10, 11, 6][(kind as usize + t as usize) % 6] } else { kind };
                 let (from, to) = links[idx(l, links.len())];
                 let tick = match (phase, dead) {
                     (0, _) => 1 + (t % 24) as u32,                                              // handshake
+                    (1, Some(d)) if kind >= 4 => d + 2 + (t % 120) as u32,                      // foreign packet while the dead peer's timeout is pending
                     (1, Some(d)) => d + 260 + (t % 60) as u32,                                  // after the disconnect
                     _ => 25 + idx(t, sc.ticks.saturating_sub(26).max(1) as usize) as u32,       // running
                 };
@@ -297,11 +316,11 @@ pub fn run_prop(ctx: &Ctx) -> PropReport {
     let tier = ctx.tier;
     let seed = ctx.seed;
     rep.part(|| run_random(ctx, "forged_twin",
-        "2-3 peers (+spectator) on a loss-free fixed-latency network with 1-24 forged packets at arbitrary ticks of every protocol state (handshake, running, after a peer died): copies of the last real input packet with a wrong number of connection statuses (0..n+2), a negative start frame, garbage / structured-malformed payloads, frames of the wrong size, real packets re-sent from unknown addresses, foreign magic on current packets, a foreign-magic 'stale session' first packet, foreign magic on any message class; oracle: no panic and the delivered inputs and states of every frame confirmed in both runs, the per-address event sequences, the disconnect flags and the spectators' replayed frames identical to the twin run without the forged packets; payloads that the reference decoder recognises as valid right-size encodings are removed (counted); non-trivial = >=1 forged packet injected",
-        || gen(tier, false), ctx.tier.pick(2000, 10000), eval));
+        "2-3 peers (+spectator) on a loss-free fixed-latency network with 1-24 forged packets at arbitrary ticks of every protocol state (handshake, running, after a peer died): copies of the last real input packet with a wrong number of connection statuses (0..n+2), a negative start frame, garbage / structured-malformed payloads, frames of the wrong size, real packets re-sent from unknown addresses, foreign magic on current packets, a foreign-magic 'stale session' first packet, foreign magic on any message class, another session's SyncRequest/SyncReply from the peer's address (also while a dead peer's timeout is pending); oracle: no panic and the delivered inputs and states of every frame confirmed in both runs, the per-address event sequences, the disconnect flags and the spectators' replayed frames identical to the twin run without the forged packets; payloads that the reference decoder recognises as valid right-size encodings are removed (counted); non-trivial = >=1 forged packet injected",
+        || gen(tier, false), ctx.tier.pick(6000, 30000), eval));
     rep.part(|| run_random(ctx, "forged_lossy",
         "the same forged packets interleaved with lossy/duplicating/reordering valid traffic: no panic, C01/C03 clauses and the final serial-replay comparison keep holding (valid traffic continues to be processed correctly)",
-        || gen(tier, true), ctx.tier.pick(1500, 8000), eval));
+        || gen(tier, true), ctx.tier.pick(4000, 20000), eval));
     let maxlen = ctx.tier.pick(2u32, 3u32);
     let n = super::c14::exh_count(maxlen);
     let blocks = (n + 255) / 256;
